@@ -245,6 +245,7 @@ func runC03(c *Ctx) {
 	pkH, pkU := p.Pkg(pkgCheckHandle), p.Pkg(pkgCheckUtil)
 	c03EmptyCurrent(c, l)
 	c03PreviousNeverSkipped(c, l)
+	c03NoCountShortcut(c, l, "NO-COUNT-SHORTCUT")
 	c03DefaultFromDefault(c, "DEFAULT-RESOLVED", pkH)
 	ruleEqualityHelper(c, "EQUALITY-HELPER", pkgs)
 	c.Rule("SUPPRESSION-CONFIGURED", "the annotation filter drops an annotation only under a condition that reads the configuration", 4)
